@@ -16,6 +16,7 @@ use crate::types::registry;
 use bls12_381::{G1Affine, G2Affine};
 use serde_json::{json, Value};
 use std::str::FromStr;
+use zkabacus_crypto as za;
 
 pub struct C15;
 const MSPEC: &str = "9001";
@@ -210,6 +211,7 @@ impl Prop for C15 {
                     v.push(json!({"f": "keypair-consistent", "hseed": seed, "stream": stream, "ty": format!("KeyPair<{}>", n), "which": which}));
                 }
             }
+            v.push(json!({"f": "verified-types", "seed": mix(&[seed, 0xC15F, stream])}));
             // channel id text form
             for k in 0..4u64 {
                 v.push(json!({"f": "chanid-text", "hseed": seed, "stream": stream, "variant": k}));
@@ -234,6 +236,7 @@ impl Prop for C15 {
             "atom" => run_atom(&mut o, case),
             "chanid-text" => run_chanid(&mut o, case),
             "keypair-consistent" => run_keypair_consistent(&mut o, case),
+            "verified-types" => run_verified_types(&mut o, case["seed"].as_u64().unwrap_or(0)),
             "lib-use" => match case["n"].as_u64().unwrap_or(0) {
                 1 => lib_use::<1>(&mut o, case["seed"].as_u64().unwrap_or(0)),
                 2 => lib_use::<2>(&mut o, case["seed"].as_u64().unwrap_or(0)),
@@ -267,6 +270,48 @@ impl Prop for C15 {
     fn required_probes(&self, _tier: Tier) -> Vec<&'static str> {
         vec!["probe.refused", "probe.accepted_after_substitution", "probe.roundtrip_ok", "probe.wire_diff_payment_completed", "probe.lib_use_checked"]
     }
+}
+
+/// Does `T` have a decoder at all? (Inherent method when `T: DeserializeOwned`, trait fallback
+/// otherwise - resolved at compile time for each concrete type below.)
+struct DecProbe<T>(std::marker::PhantomData<T>);
+trait NoDecoder {
+    fn decoder(&self) -> Option<fn(&[u8]) -> bool> {
+        None
+    }
+}
+impl<T> NoDecoder for DecProbe<T> {}
+impl<T: serde::de::DeserializeOwned> DecProbe<T> {
+    fn decoder(&self) -> Option<fn(&[u8]) -> bool> {
+        Some(|b| bincode::deserialize::<T>(b).is_ok())
+    }
+}
+
+/// Types whose only invariant is "a proof about this value was verified" can only satisfy it by
+/// being un-decodable: if one of them has a decoder, an honest but unproven commitment decodes
+/// into a "verified" value.
+fn run_verified_types(o: &mut Outcome, seed: u64) {
+    let mut s = Sched::new(seed, "c15/verified-types");
+    let unproven = refc::g1b(&refc::rand_g1(&mut s)).to_vec();
+    let probes: Vec<(&str, Option<fn(&[u8]) -> bool>)> = vec![
+        ("VerifiedBlindedMessage", DecProbe::<zkchannels_crypto::pointcheval_sanders::VerifiedBlindedMessage>(std::marker::PhantomData).decoder()),
+        ("VerifiedBlindedState", DecProbe::<za::VerifiedBlindedState>(std::marker::PhantomData).decoder()),
+    ];
+    for (name, dec) in probes {
+        o.events += 1;
+        match dec {
+            None => o.bump("probe.verified_type_has_no_decoder"),
+            Some(d) => {
+                o.bump("fault.wire.unproven-commitment-as-verified-value");
+                if d(&unproven) {
+                    o.violate("unverified-value-decodes-as-verified", name, format!("the 48-byte encoding of an arbitrary commitment decodes as {}: a value nobody proved anything about carries the 'verified' invariant", name));
+                }
+            }
+        }
+    }
+    o.nontrivial = true;
+    o.shape = mix(&[0xC15F, seed]);
+    o.log_hash = mix(&[o.shape, o.violations.len() as u64]);
 }
 
 fn run_atom(o: &mut Outcome, case: &Value) {
